@@ -213,6 +213,19 @@ OpResult exec_op(Context& c, const std::vector<std::string>& t, std::vector<std:
       } else if (t[0] == "sm" && t.size() >= 2) {
          sim::Rng g((uint64_t)std::strtoull(t[1].c_str(), nullptr, 0));
          r.bits = sim::bits(ops::sm_ops(g.uniform(0.2, 0.25), g.uniform(0.7, 0.9), g.uniform(0.1, 0.2), g.uniform(0.3, 0.4), g.chance(0.1) ? 6000.0 : g.uniform(90, 92), g.uniform(0.11, 0.125)));
+      } else if (t[0] == "ff" && t.size() >= 2) {
+         sim::Rng g((uint64_t)std::strtoull(t[1].c_str(), nullptr, 0));
+         const double x = g.loguniform(1e-3, 1e3), y = g.chance(0.15) ? x : g.loguniform(1e-3, 1e3), z = g.chance(0.15) ? 1.0 : g.loguniform(1e-3, 1e3);
+         r.bits = sim::bits(ops::ff_ops(x, y, z));
+      } else if (t[0] == "mu" && t.size() >= 4) {
+         // the caller changes a model it owns (never a shared one) and recalculates
+         Model& s = c.slot[((sim::iparse(t[1]) % NSLOTS) + NSLOTS) % NSLOTS];
+         if (s.empty()) { r.skipped = true; return r; }
+         sim::Rng g((uint64_t)std::strtoull(t[3].c_str(), nullptr, 0));
+         const int what = (int)sim::iparse(t[2]);
+         const double u = g.uniform(0, 1);
+         try { r.bits = s.m ? ops::mutate_mssm(*s.m, what, u) : ops::mutate_thdm(*s.t, what, u); }
+         catch (...) { r.exc = exception_class(); r.bits = getters_of(s); } // the state after a refused recalculation is part of the result
       } else r.skipped = true;
    } catch (...) {
       r.exc = exception_class();
@@ -292,11 +305,11 @@ std::vector<std::string> gen_plan(uint64_t seed, std::string* mode_out)
       for (size_t i = 0; i < nops; ++i) {
          int what;
          switch (flavour) {
-         case 1: what = (int)r.weighted({1, 1.5, 8, 1, 0.3, 0}); break;
-         case 2: what = (int)r.weighted({6, 1, 2, 0.5, 1, 1}); break;
-         case 3: what = (int)r.weighted({1, 0.5, 3, 1, 0.3, 5}); break;
-         case 4: what = (int)r.weighted({0.5, 0.5, 1, 0.2, 0.1, 0}) ; if (r.chance(0.7)) what = 6; break;
-         default: what = (int)r.weighted({3, 1.5, 6, 1, 0.7, 0.7}); break;
+         case 1: what = (int)r.weighted({1, 1.5, 8, 1, 0.3, 0, 0, 1.0, 0.2}); break;
+         case 2: what = (int)r.weighted({6, 1, 2, 0.5, 1, 1, 0, 2.0, 0.3}); break;
+         case 3: what = (int)r.weighted({1, 0.5, 3, 1, 0.3, 5, 0, 0.5, 0.3}); break;
+         case 4: what = (int)r.weighted({0.5, 0.5, 1, 0.2, 0.1, 0, 0, 0.3, 0.1}) ; if (r.chance(0.7)) what = 6; break;
+         default: what = (int)r.weighted({3, 1.5, 6, 1, 0.7, 0.7, 0, 1.2, 0.5}); break;
          }
          const int sl = (int)r.below(NSLOTS);
          switch (what) {
@@ -317,6 +330,12 @@ std::vector<std::string> gen_plan(uint64_t seed, std::string* mode_out)
          case 3: { if (r.chance(0.6)) p.push_back(T + "pr s " + std::to_string(r.below(nshared))); else { int j = -1; for (int c = 0; c < NSLOTS; ++c) if (slot_kind[c] >= 0) j = c; if (j >= 0) p.push_back(T + "pr p " + std::to_string(j)); else p.push_back(T + "pr s 0"); } } break;
          case 4: p.push_back(T + "sm " + std::to_string(r.next() >> 1)); break;
          case 5: { if (g_corpus.empty()) { p.push_back(T + "sm " + std::to_string(r.next() >> 1)); break; } const uint64_t idx = r.below(g_corpus.size()); slot_kind[sl] = g_corpus[idx].type == "thdm" ? 1 : 0; p.push_back(T + "mk " + std::to_string(sl) + " slha " + std::to_string(idx)); } break;
+         case 7: { // change a model the task owns (often a copy of a shared model that other tasks are reading) and recalculate
+            int j = -1; for (int tries = 0; tries < 4 && j < 0; ++tries) { const int c = (int)r.below(NSLOTS); if (slot_kind[c] >= 0) j = c; }
+            if (j < 0) { const int k = (int)r.below(nshared); slot_kind[sl] = shared_kind[k]; p.push_back(T + "cp " + std::to_string(sl) + " s " + std::to_string(k)); j = sl; }
+            p.push_back(T + "mu " + std::to_string(j) + " " + std::to_string(r.below(24)) + " " + std::to_string(r.next() >> 1));
+         } break;
+         case 8: p.push_back(T + "ff " + std::to_string(r.next() >> 1)); break;
          default: p.push_back(T + "ev " + hammer_fn + " s " + std::to_string(hammer_k)); break;
          }
       }
@@ -344,7 +363,7 @@ void task_body(int me, void* a)
    thrsim::op_boundary((int)prog.size());
 }
 
-std::string op_name(const std::vector<std::string>& t) { return t[0] == "ev" ? t[1] : t[0] == "mk" ? "construct_" + t[2] : t[0] == "cp" ? "copy" : t[0] == "pr" ? "operator<<" : t[0] == "sm" ? "sm_layer" : t[0]; }
+std::string op_name(const std::vector<std::string>& t) { return t[0] == "ev" ? t[1] : t[0] == "mk" ? "construct_" + t[2] : t[0] == "cp" ? "copy" : t[0] == "pr" ? "operator<<" : t[0] == "sm" ? "sm_layer" : t[0] == "ff" ? "loop_functions" : t[0] == "mu" ? "mutate_own_model" : t[0]; }
 
 RunOut run_plan(const std::vector<std::string>& lines, uint64_t run_index)
 {
@@ -391,7 +410,7 @@ RunOut run_plan(const std::vector<std::string>& lines, uint64_t run_index)
       // reverse task order, and inside each task every maximal run of consecutive read-only operations
       // (evaluate / print / SM layer) in reverse order: read-only operations commute, so every result
       // must be the same -- this is the "does not depend on what was computed before" clause inside one thread
-      auto read_only = [](const std::vector<std::string>& op) { return op[0] == "ev" || op[0] == "pr" || op[0] == "sm"; };
+      auto read_only = [](const std::vector<std::string>& op) { return op[0] == "ev" || op[0] == "pr" || op[0] == "sm" || op[0] == "ff"; };
       for (int i = nt - 1; i >= 0; --i) {
          Context ctx;
          const auto& prog = plan.tasks[i];
@@ -410,7 +429,7 @@ RunOut run_plan(const std::vector<std::string>& lines, uint64_t run_index)
          for (size_t k = 0; k < plan.tasks[i].size(); ++k) {
             const auto& op = plan.tasks[i][k];
             OpResult first = exec_op(ctx, op, mod_a[i]);
-            if (op[0] == "ev" || op[0] == "pr" || op[0] == "sm") { // repeatable without changing the context
+            if (op[0] == "ev" || op[0] == "pr" || op[0] == "sm" || op[0] == "ff") { // repeatable without changing the context
                OpResult second = exec_op(ctx, op, mod_a[i]);
                if (!(first == second) && out.sig.empty()) { out.sig = "mismatch:repeat:" + op_name(op); out.detail = "task " + std::to_string(i) + " op " + std::to_string(k) + ": two calls in a row returned different results"; }
             }
